@@ -11,6 +11,7 @@ pub mod c12;
 pub mod c14;
 pub mod c15;
 pub mod c16;
+pub mod c17;
 pub mod c18;
 pub mod c19;
 pub mod c20;
@@ -34,6 +35,7 @@ pub fn run_property(ctx: &mut Ctx) -> bool {
         "C14" => c14::run(ctx),
         "C15" => c15::run(ctx),
         "C16" => c16::run(ctx),
+        "C17" => c17::run(ctx),
         "C18" => c18::run(ctx),
         "C19" => c19::run(ctx),
         "C20" => c20::run(ctx),
@@ -87,6 +89,7 @@ pub fn replay(body: &Value) -> i32 {
         "sender" => replay_part(&c07::C07Part, body),
         "suspend" => replay_part(&c19::C19Part, body),
         "progress" => replay_part(&c20::C20Part, body),
+        "limits" => replay_part(&c17::C17Part, body),
         "roundtrip" => replay_part(&c05::RtPart, body),
         "checksum" => replay_part(&c14::CkPart, body),
         "confinement" => replay_part(&c12::FsPart, body),
